@@ -26,9 +26,10 @@ RULES = {
     "R6": "scan order: the enumerated iteration / plate directories are visited in the order of their integer index (sorted with an int-valued key), not in string order",
     "R7": "the screen read from a completed step's directory is its advanced screen whenever one is published (the training screen only for the initial step)",
     "R8": "a step directory counts as complete exactly when its metadata marker is there: the reader answers `incomplete` (None) on the emptiness of the screen_metadata.json glob and on nothing else",
+    "R9": "every glob of the script names its directory levels one by one (no `**` / recursive search that also sees unpublished working copies) and matches step directories as the whole family plate_* / iter_*",
     "R5": "inputs: screen = the scan's current screen (predecessor output); thetas/chunks from plate_0 of the same iteration; excludes from the same iteration",
 }
-MIN = {"R1": 2, "R2": 3, "R3": 1, "R4": 2, "R5": 4, "R6": 2, "R7": 1, "R8": 1}
+MIN = {"R1": 2, "R2": 3, "R3": 1, "R4": 2, "R5": 4, "R6": 2, "R7": 1, "R8": 1, "R9": 10}
 TRUSTED = ["glob/os.path semantics", "the pipeline publishes screen_metadata.json last (completion marker) - not checked here"]
 TECHNIQUE = "who-may-call scan, co-definition (torn update) analysis on the CFG, integer relational normal forms, abstract evaluation of the file-preference function under a stated hypothesis"
 LEVEL_TEXT = ("Two necessary conditions of crash-safe resumption are shape facts of the scan: it never deletes a completed "
@@ -613,7 +614,42 @@ def r8(ctx):
     ctx.ok("R8", f"{f.site()}::incomplete-iff-marker-missing", f"{len(nones)} `return None` path(s), each guarded by the emptiness of the screen_metadata.json glob only")
 
 
-RULE_FUNCS = [r1, r2, r3, r4, r5, r6, r7, r8]
+def r9(ctx):
+    """What the script finds on disk is what the pipeline published: every glob names its directory levels one by one.  A pattern with `**`
+    (or recursive=True) also matches nextflow's own copies under <job>/work/.. before they are published, so an interrupted step looks
+    complete; a step-directory component narrower than the whole family (`plate_[0-9]` instead of `plate_*`) silently loses plate_10
+    and up - the batch handed to the next selection is then incomplete."""
+    import re
+    n = 0
+    for q, f in sorted(ctx.R.funcs.items()):
+        if f.mod != ORCH_MOD:
+            continue
+        env = single_defs(f.node)
+        for c in calls(f.node):
+            if (call_name(c) or "") not in ("glob.glob", "glob.iglob", "glob", "iglob"):
+                continue
+            n += 1
+            pat = inline(c.args[0], env) if c.args else None
+            parts = []
+            for x in ast.walk(pat) if pat is not None else []:
+                if isinstance(x, ast.Constant) and isinstance(x.value, str):
+                    parts += [p_ for p_ in re.split(r"[/\\]", x.value) if p_]
+            rec = kwargs(c).get("recursive")
+            site = f"{f.site()}::glob#{U(pat)[:60] if pat is not None else n}"
+            if any(p_ == "**" or "**" in p_ for p_ in parts) or (rec is not None and not (isinstance(rec, ast.Constant) and rec.value is False)):
+                ctx.bad("R9", site, f"`{U(c)[:100]}` searches every depth: it also matches the pipeline's working copies under <job>/work/.. of a step that was interrupted before it "
+                        f"published its outputs, so that step is taken for complete (its directory is never named for deletion and the next step starts from the wrong screen)")
+                continue
+            narrow = [p_ for p_ in parts if re.match(r"^(plate|iter)_", p_) and p_ not in ("plate_*", "iter_*") and re.search(r"[\[\]?]", p_)]
+            if narrow:
+                ctx.bad("R9", site, f"`{U(c)[:100]}` matches only part of the step directories (`{narrow[0]}`): steps with a longer index (plate_10, iter_10, ..) are not found, "
+                        f"so the plates selected so far in a large batch are not all excluded from the next selection")
+                continue
+            ctx.ok("R9", site, "directory levels named one by one; step directories matched as a whole family")
+    ctx.need(n >= 10, f"only {n} glob calls found in the orchestration script")
+
+
+RULE_FUNCS = [r1, r2, r3, r4, r5, r6, r7, r8, r9]
 
 
 def run(ctx):
@@ -630,6 +666,8 @@ def _rep(a, b):
 
 
 WITNESSES = [
+    ("marker searched at every depth", ORCH_MOD, _rep('glob.glob(os.path.join(output_dir, "*", "screen_metadata.json"))\n    )\n\n    if len(screen_metadata) == 0:', 'glob.glob(os.path.join(output_dir, "**", "screen_metadata.json"), recursive=True)\n    )\n\n    if len(screen_metadata) == 0:'), ["R9"]),
+    ("selected plates of single-digit steps only", ORCH_MOD, _rep('glob.glob(os.path.join(output_dir, "plate_*", "*", "selected_plate"))', 'glob.glob(os.path.join(output_dir, "plate_[0-9]", "*", "selected_plate"))'), ["R9"]),
     ("completion also demands a screen file", ORCH_MOD,
      _rep("    if len(screen_metadata) == 0:\n        return None", "    if len(screen_metadata) == 0 or get_screen_from_job_output(output_dir) is None:\n        return None"), ["R8"]),
     ("training screen preferred over the advanced one", ORCH_MOD, _rep("    if len(advanced_screen_glob) > 0:\n        return advanced_screen_glob[0]\n    else:\n        return training_screen_glob[0]", "    if len(training_screen_glob) > 0:\n        return training_screen_glob[0]\n    else:\n        return advanced_screen_glob[0]"), ["R7"]),
